@@ -55,6 +55,17 @@ theorem gen_key_deserializer :
 theorem C13_roundtrip (t : Ty) (v : Val) (h : HasTy t v) : ∃ a, ofVal t v = some a ∧ toVal t a = .ok v :=
   anyRt h
 
+/-- **no two values share a dynamic value**: at one type, values that convert to the same `any` are equal -/
+theorem C13_ofVal_injective (t : Ty) (v w : Val) (hv : HasTy t v) (hw : HasTy t w)
+    (e : ofVal t v = ofVal t w) : v = w := by
+  obtain ⟨a, ha, hr⟩ := anyRt hv
+  obtain ⟨b, hb, hr'⟩ := anyRt hw
+  rw [e, hb] at ha
+  cases ha
+  rw [hr] at hr'
+  cases hr'
+  rfl
+
 /-- **same document**: serializing the dynamic value to JSON gives the same document as serializing
     the original (the model keeps insertion order; the real `BTreeMap` re-sorts members, which RFC 8259
     equality ignores) -/
